@@ -153,6 +153,7 @@ def units(tier):
             us.append({'k': 'grid', 't': t, 'r': r})
     us.append({'k': 'ocr'})
     us.append({'k': 'two'})
+    us.append({'k': 'same'})
     return us
 
 
@@ -160,7 +161,7 @@ def space(tier):
     return {'bound': f"{len(TWPS)} townships x {len(RGES)} ranges x 3 x 3 direction presences x <= 11 spellings x "
                      f"{'6 same-style' if tier == 'quick' else '36'} direction-word styles x 9 default combinations (config source); "
                      "other sources at default-word style; OCR: 5 number pairs x every digit position x 4 look-alikes; two-Twp/Rge texts: "
-                     "6 x 6 spellings", 'caps_hit': []}
+                     "6 x 6 spellings; the same Twp/Rge twice (complete / missing N/S / E/W / both, 4 x 4 x 6 x 3 spellings x 3 shapes)", 'caps_hit': []}
 
 
 def run_grid(acc, t, r, tier):
@@ -278,8 +279,58 @@ def run_two(acc):
                     acc.guard('two_ok')
 
 
+def run_same(acc):
+    """The same Twp/Rge occurs twice in one text: once complete and once with a missing direction (in both orders, also twice
+    incomplete): the fixed_twprge warning must be raised whenever some occurrence lacked a direction."""
+    names = ['T-R', 'Township, Range', 'Twp. Rge.', 't-r', 'T. R.', 'T R']
+    forms = {
+        'full': lambda n: dict(spellings(154, 'N', 97, 'W', True, True)).get(n),
+        'no_ns': lambda n: dict(spellings(154, '', 97, 'W', False, True)).get(n),
+        'no_ew': lambda n: dict(spellings(154, 'N', 97, '', True, False)).get(n),
+        'no_both': lambda n: dict(spellings(154, '', 97, '', False, False)).get(n),
+    }
+    for ka in forms:
+        for kb in forms:
+            for na in names:
+                for nb in names[:3]:
+                    ta, tb = forms[ka](na), forms[kb](nb)
+                    if ta is None or tb is None:
+                        continue
+                    for text in (f"{ta} Sec 14: NE/4, {tb} Sec 15: W/2", f"{ta}\nSec 14: NE/4\n{tb}\nSec 15: W/2",
+                                 f"NE/4 of Sec 14, {ta}, Lot 1 of Sec 15, {tb}"):
+                        key = f"same|{text}"
+                        case = {'two': True, 'same': True, 'text': text}
+                        acc.transitions += 1
+                        try:
+                            d = _p.PLSSDesc(text)
+                            find = _p.find_twprge(text, preprocess=True)
+                        except Exception as ex:  # noqa
+                            acc.case(key, 'EXC')
+                            acc.violation('exception', f"C08:exception:{key}", case, got=f"{type(ex).__name__}: {ex}")
+                            continue
+                        acc.case(key, [[x.trs for x in d.tracts], find, d.w_flags])
+                        acc.states += 1
+                        # (the second block must not start with a direction letter when it follows an incomplete Twp/Rge:
+                        # 'R97, W/2' is genuinely ambiguous)
+                        want2 = 'Lot 1' if text.startswith('NE/4 of') else 'W/2'
+                        if [(x.trs, x.desc) for x in d.tracts] != [('154n97w14', 'NE/4'), ('154n97w15', want2)] or \
+                                find != ['T154N-R97W', 'T154N-R97W']:
+                            acc.violation('two_twprge_tracts', f"C08:two_twprge_tracts:{text}", case,
+                                          got=[[(x.trs, x.desc) for x in d.tracts], find])
+                            continue
+                        missing = ka != 'full' or kb != 'full'
+                        if bool([f for f in d.w_flags if f.startswith('fixed_twprge')]) != missing:
+                            acc.violation('fixed_twprge_warning', f"C08:fixed_twprge_warning:{key}", case, got=d.w_flags,
+                                          exp='present' if missing else 'absent')
+                            continue
+                        acc.guard('same_twprge_twice_ok')
+
+
 def run_unit(unit, tier):
     acc = Acc()
+    if unit['k'] == 'same':
+        run_same(acc)
+        return acc.result()
     if unit['k'] == 'grid':
         run_grid(acc, unit['t'], unit['r'], tier)
     elif unit['k'] == 'ocr':
@@ -293,7 +344,7 @@ def replay(case):
     acc = Acc()
     if case.get('ocr') or case.get('two'):
         sub = Acc()
-        (run_ocr if case.get('ocr') else run_two)(sub)
+        (run_ocr if case.get('ocr') else (run_same if case.get('same') else run_two))(sub)
         return [v for v in sub.viol if v['case'].get('text') == case['text']]
     judge(acc, case['t'], case['ns'], case['r'], case['ew'], case['spelling'], case['text'], case['source'],
           case['dns'], case['dew'], set())
@@ -303,7 +354,7 @@ def replay(case):
 def guards(info):
     g = info['guards']
     out = []
-    for name in ('direction_filled', 'non_master_default_used', 'explicit_kept_against_default', 'ocr_scrubbed', 'two_ok'):
+    for name in ('direction_filled', 'non_master_default_used', 'explicit_kept_against_default', 'ocr_scrubbed', 'two_ok', 'same_twprge_twice_ok'):
         if not g.get(name):
             out.append(f"never observed: {name}")
     return out
